@@ -563,7 +563,11 @@ pub mod value {
                 Variant(v) => {
                     write!(f, "variant {{ ")?;
                     if v.0.val == Null {
-                        write!(f, "{}", v.0.id)?;
+                        // quote the label like IDLField's Debug does
+                        match &v.0.id {
+                            Label::Named(id) => write!(f, "{}", ident_string(id))?,
+                            id => write!(f, "{id}")?,
+                        }
                     } else {
                         write!(f, "{:?}", v.0)?;
                     }
